@@ -10,8 +10,12 @@ type Type = string
 type Expr interface{}
 
 type (
-	IntLit  struct{ V int64 }
-	StrLit  struct{ V string } // the denoted text; printed as "..." with escapes
+	IntLit struct{ V int64 }
+	StrLit struct{ V string } // the denoted text; printed as "..." with escapes
+	// StrSrc: a "..." literal given by its SOURCE body (printed verbatim between the quotes) and the text Go
+	// denotes by it: escapes beyond the documented \n \t \\ \" (\x41, \u00e9, \a ...) that both transpilers hand
+	// through to Go - used where two translations are compared with each other (C17)
+	StrSrc  struct{ Src, V string }
 	BoolLit struct{ V bool }
 	UnitLit struct{}
 	Var     struct{ Name string }
